@@ -50,6 +50,7 @@ STPChain == Vec(3, 0, Max24, CertEntry13)
 S == [
   \* ---- record layer and non-handshake protocols
   RecordHeader3 |-> Struct(<<U(1), U(1), U(1), U(2)>>),      \* ContentType, ProtocolVersion, uint16 length
+  RecordHeader2 |-> RH2,                                      \* SSLv2 record header (2- or 3-byte form)
   Alert         |-> Struct(<<U(1), U(1)>>),
   ChangeCipherSpec |-> Struct(<<U(1)>>),
   Heartbeat     |-> Struct(<<U(1), Opaque(2, 0, Max16), Rest>>),   \* RFC 6520 4: type, payload, padding
